@@ -21,7 +21,8 @@ Record sstate := mkSS { ss_s0 : nat; ss_pl : list nat; ss_seen : list gref; ss_p
 
 Record VA := mkVA {
   va_tls : option nat;       (* the record this thread is attached to (between "_att" and "_det") *)
-  va_unpub : option (nat * bool);   (* a record created by this thread and not yet pushed on thread_list_; thread_id_ stored? *)
+  va_unpub : option (nat * (bool * option (option nat)));
+     (* a record created by this thread and not yet pushed on thread_list_; thread_id_ stored?; value written to next_ *)
   va_hold : option nat;      (* a record owned through thread_id_ while attaching / detaching *)
   va_help : option nat;      (* a record acquired by help_scan *)
   va_node : option nat;      (* a record met while walking thread_list_ (alloc_thread_data) *)
@@ -29,6 +30,13 @@ Record VA := mkVA {
   va_e : option (option nat * bool);   (* the value of extended_list_ read by thread_hp_storage::extend; written to next_block_ of the new block? *)
   va_limbo : option (option nat * list nat);   (* the guard blocks of the record being detached that are still to be freed *)
   va_scan : option sstate }.
+
+(** what is known about an unpublished record [x] of thread [t] *)
+Definition unpub_info (x : rec) (t : nat) (bt : bool * option (option nat)) : Prop :=
+  match snd bt with
+  | Some o => r_tid x = (if fst bt then S t else 0) /\ r_next x = o
+  | None => r_tid x = (if fst bt then S t else 0)
+  end.
 
 Definition va0 : VA := mkVA None None None None None None None None None.
 
@@ -130,7 +138,7 @@ Section InvA.
     ja_unatt : forall r, att h r = None -> linked h r = [];
     ja_unpub : forall t r bt, va_unpub (views a t) = Some (r, bt) ->
                r < List.length (recs g) /\ att h r = None /\ (forall L, rchain g (tlist g) L -> ~ In r L) /\
-               r_ext (grec g r) = None /\ r_tid (grec g r) = (if bt then S t else 0) /\
+               r_ext (grec g r) = None /\ unpub_info (grec g r) t bt /\
                (forall t' bt', va_unpub (views a t') = Some (r, bt') -> t' = t);
     ja_hold : forall t r, va_hold (views a t) = Some r ->
                r < List.length (recs g) /\ att h r = None /\ r_tid (grec g r) = S t /\ after g (tlist g) r /\
@@ -267,8 +275,10 @@ Section Quiet.
     - intros t r Ht. destruct (J3 t r Ht) as (k & Hk). exists k. now rewrite B3.
     - intros r Ha. rewrite B3 in Ha. rewrite B4. auto.
     - intros t r bt Ht. destruct (J5 t r bt Ht) as (X1&X2&X3&X4&X5&X6). destruct (A4 r) as (E1&E2&E3&E4).
-      rewrite A2, B3, E2, E4. repeat split; auto.
-      intros L HL. apply X3. rewrite A1 in HL. eapply rchain_piA; [apply piA_sym; exact P|exact HL].
+      rewrite A2, B3, E4.
+      split; auto. split; auto. split; [|split; auto; split; [|exact X6]].
+      + intros L HL. apply X3. rewrite A1 in HL. eapply rchain_piA; [apply piA_sym; exact P|exact HL].
+      + unfold unpub_info in *. rewrite E1, E2. exact X5.
     - intros t r Ht. destruct (J6 t r Ht) as (X1&X2&X3&X4&X5&X6). destruct (A4 r) as (E1&E2&E3&E4).
       rewrite A2, B3, E2, E3, E4. repeat split; auto. rewrite A1. eapply after_piA; eauto.
     - intros t r Ht. destruct (J7 t r Ht) as (X1&X2&X3). destruct (A4 r) as (E1&E2&E3&E4). rewrite E2, B3. auto.
